@@ -400,6 +400,18 @@ def _pfc_memcpy(ctx, run, f):
             # source: buffer + col, 42 bytes
             src_off = _ptr_offset(an, st, f, e["c"][1])
             ok_src = src_off is not None and size[1] is not None and _sum_le(an, st, f, e["c"][1], e["c"][2], 42)
+            if not ok_src:
+                # the same obligation as a linear inequality: source pointer + length <= packet + 42, with the length's
+                # upper bounds taken from its defining MIN and pointers followed to their definitions
+                from .. import linear
+                pk = [p_["name"] for p_ in f.params if p_.get("t", "").rstrip().endswith("*") and p_ is not f.params[0]]
+                src = linear.exact(f, e["c"][1], i)
+                for U in linear.upper_bounds(f, e["c"][2], i):
+                    if src is None:
+                        break
+                    tot = linear._add(src, U)
+                    if len(tot[0]) == 1 and list(tot[0].items())[0][1] == 1 and list(tot[0])[0] in pk and tot[1] <= 42:
+                        ok_src = True
             if ok_src:
                 run.holds("RF-IVL", key, "memcpy reads size = MIN (left, 42 - col) bytes from buffer + col: col + size <= 42",
                           ex.loc(f, i))
